@@ -29,7 +29,7 @@ def Comps.logged (C : Comps α S E P) : Comps α (S × List Nat) (E × List Nat)
     fxStep := fun e buf dt info =>
       (((C.fxStep e.1 buf dt info).1, e.2 ++ [buf.length]), (C.fxStep e.1 buf dt info).2)
     fxStart := fun e => (C.fxStart e.1, e.2)
-    spStep := C.spStep, spInfo := C.spInfo }
+    spStep := C.spStep, spInfo := C.spInfo, spStart := C.spStart }
 
 theorem Comps.logged_erase_snd (C : Comps α S E P) (s : S × List Nat) (buf : List (Frame α)) (dt : α) (info : Info α) :
     ((C.logged.sndStep s buf dt info).1.1, (C.logged.sndStep s buf dt info).2) = C.sndStep s.1 buf dt info := rfl
